@@ -521,11 +521,24 @@ impl Gen<'_> {
             95 => {
                 // an option that changes how the NEXT line is parsed
                 let (a, b) = (self.w(), self.w());
-                u.lines.push("set -o portable".into());
-                u.lines.push(format!("echo {a}"));
-                u.lines.push("set +o portable".into());
-                u.lines.push(format!("arr{}=(p q r)", self.word));
-                u.lines.push(format!("echo {b}"));
+                if self.rng.bool() {
+                    // ... also when that "line" is the next line of an alias
+                    // value (the lexer still holds the rest of the value when
+                    // the option changes)
+                    let id = self.word;
+                    u.lines.push(format!("alias pm{id}='set +o portable"));
+                    u.lines.push(format!("arr{id}=(p q r)"));
+                    u.lines.push(format!("echo {b}'"));
+                    u.lines.push("set -o portable".into());
+                    u.lines.push(format!("echo {a}"));
+                    u.lines.push(format!("pm{id}"));
+                } else {
+                    u.lines.push("set -o portable".into());
+                    u.lines.push(format!("echo {a}"));
+                    u.lines.push("set +o portable".into());
+                    u.lines.push(format!("arr{}=(p q r)", self.word));
+                    u.lines.push(format!("echo {b}"));
+                }
                 u.out.push(a);
                 u.out.push(b);
             }
